@@ -16,8 +16,12 @@ static uint32_t s_random(void) {
         fprintf(v_out, "{\"e\":\"u_draw\","); v_emit_bytes("r", b, 4); fprintf(v_out, "}\n"); }
     return r;
 }
+static long nreq_total;
 static void s_buf(void *buf, size_t n) {
     if (nreq < 256) reqs[nreq++] = n;
+    /* a generator that keeps asking after thousands of requests in one call never accepts a candidate the script made acceptable:
+     * recorded as an event no action of RandomSource allows (instead of hanging the harness) */
+    if (++nreq_total > 20000) { if (v_out) { fprintf(v_out, "{\"e\":\"runaway\",\"requests\":%ld}\n", nreq_total); fflush(v_out); } _exit(70); }
     for (size_t i = 0; i < n; i++) ((unsigned char *) buf)[i] = script_pos < script_len ? script[script_pos++] : 0xA7;
 }
 static randombytes_implementation s_impl = { s_name, s_random, NULL, NULL, s_buf, NULL };
@@ -101,7 +105,7 @@ static void make_script(int gi, int variant) {
         else c[31] &= 0x0f;
     }
 }
-static void run_gen(int gi, unsigned char *out, size_t *outlen) { script_pos = 0; nreq = 0; memset(out, 0, 256); gens[gi].fn(out, outlen); }
+static void run_gen(int gi, unsigned char *out, size_t *outlen) { script_pos = 0; nreq = 0; nreq_total = 0; memset(out, 0, 256); gens[gi].fn(out, outlen); }
 
 int main(int argc, char **argv) {
     if (argc < 4) return 3;
